@@ -125,7 +125,9 @@ def declare(spec):
 
     add(spec, "Node.block_individual",
         types={"individual": IND, "next_node": "obj:Node"},
-        requires=[("C07:blocked-only-when-destination-is-full", "next_node.number_of_individuals >= next_node.node_capacity")],
+        requires=[("C07:blocked-only-when-destination-is-full", "next_node.number_of_individuals >= next_node.node_capacity"),
+                  ("C17:tracker-protocol-both-ends-are-service-nodes-of-this-network",
+                   "1 <= self.id_number and self.id_number <= nnodes() and 1 <= next_node.id_number and next_node.id_number <= nnodes()")],
         modifies=["is_blocked@individual", "$seq@next_node.blocked_queue", "len_blocked_queue@next_node",
                   "unchecked_blockage@self.simulation"] + ["state", "increment", "$seq[TrackerState]", "$seq[TrackerRow]",
                   "$seq[TrackerCell]", "$seq[TrackerOrder]", "$seq[History]", "$seq[HistEntry]"],
@@ -170,7 +172,8 @@ def declare(spec):
                                                "and individual.prev_priority_class == old(individual.priority_class))"),
             ("no-matrix-no-change", "implies(not self.class_change, individual.customer_class == old(individual.customer_class) "
                                     "and individual.priority_class == old(individual.priority_class) "
-                                    "and individual.prev_priority_class == old(individual.prev_priority_class))"),
+                                    "and individual.prev_priority_class == old(individual.prev_priority_class) "
+                                    "and individual.previous_class == old(individual.previous_class))"),
         ],
         props=["C09", "C17"])
 
@@ -446,7 +449,8 @@ def declare(spec):
                           [f + "@S(self.servers)" for f in ATTACH_FIELDS] +
                           ["number_in_service@self", "next_class_change_date@self", "next_class_change_ind@self",
                            "number_of_individuals@self", "$seq@self.individuals[next_individual.priority_class]",
-                           "loc@next_individual", "filed@next_individual", "prev_priority_class@next_individual"] + TRK,
+                           "loc@next_individual", "filed@next_individual", "prev_priority_class@next_individual",
+                           "previous_class@next_individual", "counted_class@next_individual"] + TRK,
                  ensures=[
                      ("C01:now-located-here", "ref_eq(loc(next_individual), self) and filed(next_individual) == next_individual.priority_class"),
                      ("C01:population-counter-incremented", "self.number_of_individuals == old(self.number_of_individuals) + 1"),
@@ -456,6 +460,8 @@ def declare(spec):
                      ("C07:no-longer-blocked", "not next_individual.is_blocked"),
                      ("C01+C14:filed-in-the-line-that-release-and-renege-will-look-in",
                       "next_individual.prev_priority_class == next_individual.priority_class"),
+                     ("C17:announced-to-the-tracker-under-the-class-its-records-and-later-tracker-calls-will-name",
+                      "counted_class(next_individual) == next_individual.customer_class and next_individual.previous_class == next_individual.customer_class"),
                  ]),
             dict(name="preempt", when="not (self.priority_preempt is False or isinf(self.c))", modifies=["*"], ensures=[]),
         ],
@@ -484,7 +490,12 @@ def declare(spec):
                    "reroute or cls_is(next_node, 'ExitNode') or next_node.number_of_individuals < next_node.node_capacity"),
                   "node_ready(self, next_node, next_individual)", "cls_ok(self, next_individual)", "float_dates(next_individual)",
                   "is_fin(self.next_event_date) or is_pinf(self.next_event_date)",
-                  ("C02:dates-of-a-completed-service", "implies(not reroute, in_service_dates_ok(self, next_individual))")],
+                  ("C02:dates-of-a-completed-service", "implies(not reroute, in_service_dates_ok(self, next_individual))"),
+                  ("C17:tracker-protocol-a-blocked-customer-leaves-towards-a-service-node",
+                   "implies(next_individual.is_blocked, is_obj(next_node, 'Node') and 1 <= as_obj(next_node, 'Node').id_number "
+                   "and as_obj(next_node, 'Node').id_number <= nnodes())"),
+                  ("C17:tracker-protocol-previous_class-is-the-class-the-customer-is-counted-under",
+                   "counted_class(next_individual) == next_individual.previous_class")],
         modifies=["*"], allocates="any", raises=[("ValueError", "True")],
         at_call={"accept": [
             ("C01:removed-once-from-its-line",
@@ -522,7 +533,7 @@ def declare(spec):
     # I-POP / I-FILE / I-SRV / I-BLK for one customer located at node m (ghost-based, flat)
     M["cust_ok"] = ("lambda m, i: 0 <= i.prev_priority_class and i.prev_priority_class < len(m.individuals) "
                     "and i in m.individuals[i.prev_priority_class] and holds_server(m, i) and cls_ok(m, i) "
-                    "and implies(isinf(m.c), not i.server) and float_dates(i) "
+                    "and implies(isinf(m.c), not i.server) and float_dates(i) and counted_class(i) == i.previous_class "
                     "and implies(i.is_blocked and not i.interrupted, in_service_dates_ok(m, i)) "
                     "and implies(i.interrupted, has(i, 'original_service_start_date') and has(i, 'original_service_time') "
                     "  and is_time(i.original_service_start_date) and is_fin(i.original_service_start_date) "
@@ -587,7 +598,7 @@ def declare(spec):
         props=["C01", "C07"])
 
     # ---- reneging (C13) ------------------------------------------------------------------------------------------------
-    M["all_nodes_alike"] = ("lambda n: forall_obj('Node', lambda m: shape(m) and ref_eq(m.simulation, n.simulation))")
+    M["all_nodes_alike"] = ("lambda n: forall_obj('Node', lambda m: shape(m) and ref_eq(m.simulation, n.simulation) and 1 <= m.id_number and m.id_number <= nnodes())")
     M["renege_cand_ok"] = (
         "lambda n, x: is_obj(x, 'Individual') and prev_prio_ok(n, as_obj(x, 'Individual')) "
         "and as_obj(x, 'Individual') in n.individuals[as_obj(x, 'Individual').prev_priority_class] and ref_eq(loc(as_obj(x, 'Individual')), n) "
@@ -595,7 +606,8 @@ def declare(spec):
         "and as_obj(x, 'Individual').reneging_date == n.now "
         "and is_time(as_obj(x, 'Individual').arrival_date) and is_fin(as_obj(x, 'Individual').arrival_date) "
         "and as_obj(x, 'Individual').arrival_date <= n.now and cls_ok(n, as_obj(x, 'Individual')) "
-        "and 0 <= as_obj(x, 'Individual').priority_class and as_obj(x, 'Individual').priority_class < n.simulation.number_of_priority_classes")
+        "and 0 <= as_obj(x, 'Individual').priority_class and as_obj(x, 'Individual').priority_class < n.simulation.number_of_priority_classes "
+        "and counted_class(as_obj(x, 'Individual')) == as_obj(x, 'Individual').previous_class")
 
     add(spec, "Node.renege",
         requires=[INV("shape(self)"), INV("net_ok(self)"), INV("float_clock(self)"), INV("all_nodes_alike(self)"),
@@ -631,7 +643,9 @@ def declare(spec):
         "and as_obj(x, 'Individual') in n.individuals[as_obj(x, 'Individual').priority_class] and ref_eq(loc(as_obj(x, 'Individual')), n) "
         "and holds_server(n, as_obj(x, 'Individual')) and implies(isinf(n.c), not as_obj(x, 'Individual').server) "
         "and not as_obj(x, 'Individual').is_blocked and cls_ok(n, as_obj(x, 'Individual')) and float_dates(as_obj(x, 'Individual')) "
-        "and in_service_dates_ok(n, as_obj(x, 'Individual')) and as_obj(x, 'Individual').service_end_date == n.now")
+        "and in_service_dates_ok(n, as_obj(x, 'Individual')) and as_obj(x, 'Individual').service_end_date == n.now "
+        "and counted_class(as_obj(x, 'Individual')) == as_obj(x, 'Individual').customer_class "
+        "and as_obj(x, 'Individual').previous_class == as_obj(x, 'Individual').customer_class")
     M["class_change_ok"] = (
         "lambda n: implies(n.class_change, forall_member(n.simulation.network.customer_class_names, lambda a: "
         "forall_in(n.simulation.network.customer_class_names, lambda b: is_fin(n.class_change[a][b]) and n.class_change[a][b] >= 0)))")
